@@ -394,7 +394,23 @@ def case_xdma(case):
     from snaxc.accelerators.snax_xdma import SNAXXDMAAccelerator
     from snaxc.dialects import snax_stream
 
-    desc, used_dims = case
+    desc, used_dims = case[:2]
+    body = case[2] if len(case) > 2 else ("mul",)  # kernel of the region: decides which extension is active
+    XBODY = {
+        "mul": ("i16", "i16", "%r = kernel.mul %x, %x : i16, i16 -> i16"),
+        "add": ("i32", "i32", "%r = kernel.add %x, %x : i32, i32 -> i32"),
+        "add64": ("i32", "i64", "%r = kernel.add %x, %x : i32, i32 -> i64"),
+        "rescale_down": ("i32", "i8", "%r = kernel.rescale %x {{input_zp = {0} : i32, output_zp = {1} : i32, multiplier = array<i32: {2}>, shift = array<i32: {3}>, max_int = 127 : i32, min_int = -128 : i32, double_round = false}} : (i32) -> i8"),
+        "rescale_up": ("i8", "i32", "%r = kernel.rescale %x {{input_zp = {0} : i32, output_zp = {1} : i32, multiplier = array<i32: {2}>, shift = array<i32: {3}>, max_int = 127 : i32, min_int = -128 : i32, double_round = false}} : (i8) -> i32"),
+        "rescale_same": ("i32", "i32", "%r = kernel.rescale %x {{input_zp = {0} : i32, output_zp = {1} : i32, multiplier = array<i32: {2}>, shift = array<i32: {3}>, max_int = 127 : i32, min_int = -128 : i32, double_round = false}} : (i32) -> i32"),
+    }
+    # independent table: option -> (number of parameter registers, kernel that activates it, its register values)
+    rp = tuple(body[1:5]) if len(body) >= 5 else (0, 0, 0, 0)
+    XEXT = {
+        "add_ext": (1, "add", [2]), "add_ext_long": (1, None, None), "maxpool_ext": (1, None, None), "memset_ext": (1, None, None),
+        "t": (1, None, None), "rescale_down_ext": (4, "rescale_down", [rp[0], rp[2], rp[1], rp[3]]),
+        "rescale_up_ext": (4, "rescale_up", [rp[0], rp[2], rp[1], rp[3]]),
+    }
 
     def build(get):
         acc = SNAXXDMAAccelerator() if desc is None else SNAXXDMAAccelerator(mk_config(desc, "xdma"))
@@ -407,17 +423,19 @@ def case_xdma(case):
         txt = """
 func.func @f(%p0 : index, %p1 : index) {
   "snax_stream.streaming_region"(%p0, %p1) <{stride_patterns = [#snax_stream.stride_pattern<ub = [1], ts = [0], ss = [8]>, #snax_stream.stride_pattern<ub = [1], ts = [0], ss = [8]>], accelerator = "snax_xdma", operandSegmentSizes = array<i32: 1, 1>}> ({
-  ^bb0(%s0 : !dart.stream<i16>, %s1 : !dart.stream<i16>):
+  ^bb0(%s0 : !dart.stream<TI>, %s1 : !dart.stream<TO>):
     %g = "dart.generic"(%s0) <{library_call = "none"}> ({
-    ^bb1(%x : i16, %y : i16):
-      %r = kernel.mul %x, %x : i16, i16 -> i16
-      dart.yield %r : i16
-    }) : (!dart.stream<i16>) -> !dart.stream<i16>
-    dart.yield %g : !dart.stream<i16>
+    ^bb1(%x : TI, %y : TO):
+      KERNEL
+      dart.yield %r : TO
+    }) : (!dart.stream<TI>) -> !dart.stream<TO>
+    dart.yield %g : !dart.stream<TO>
   }) : (index, index) -> ()
   func.return
 }
 """
+        ti, to, kern = XBODY[body[0]]
+        txt = txt.replace("KERNEL", kern.format(*rp) if "{" in kern else kern).replace("TI", ti).replace("TO", to)
         m = Parser(xshim.make_ctx(), txt).parse_module()
         op = [o for o in m.walk() if isinstance(o, snax_stream.StreamingRegionOp)][0]
         op.properties["stride_patterns"] = ArrayAttr([snax_stream.StridePattern(*p) for p in pats])
@@ -436,11 +454,19 @@ func.func @f(%p0 : index, %p1 : index) {
         ptrs = {k: z3.BitVec(f"ptr{k}", 32) for k in range(2)}
         vals, names, setup, launch, I = eval_setup(ops, {s.res[0]: ptrs[k] for k, s in enumerate(srcs)})
         exp = streamer_spec(acc, pats, ptrs, set(), xdma=True)
-        for name in acc.streamer_names:
-            exp[f"{name}_bypass"] = z3.BitVecVal(0, 32)  # empty body: no extension active
-        for n in acc.fields:
-            if "_ext_" in n or "ext" in n.split("_", 1)[1]:
-                exp.setdefault(n, z3.BitVecVal(0, 32))
+        d = desc or [("r", "nnnnn", 1, ["c"]), ("w", "nnnnn", 1, ["c", "bm"])]
+        for name, (_, _, _, opts) in zip(acc.streamer_names, d):
+            # bit k of <s>_bypass belongs to the k-th extension of the streamer, the one whose parameter registers
+            # are declared k-th after it; an extension is active iff the region's kernel is the one it implements
+            bypass = 0
+            for k, o in enumerate([o for o in opts if o in XEXT]):
+                n, kern, vals_ = XEXT[o]
+                active = kern is not None and kern == body[0]
+                if active:
+                    bypass |= 1 << k
+                for i in range(n):
+                    exp[f"{name}_{o}_{i}"] = z3.BitVecVal(vals_[i] if active else 0, 32)
+            exp[f"{name}_bypass"] = z3.BitVecVal(bypass, 32)
         oblige_fields(E, acc, vals, names, exp, "snax_xdma")
         E.oblige("launch:fields", z3.BoolVal(tuple(x.data for x in launch.param_names.data) == tuple(acc.launch_fields)))
 
@@ -453,7 +479,7 @@ func.func @f(%p0 : index, %p1 : index) {
             s += "|streamer_without_channel_mask"
         return s
 
-    return run_case(fn, replay, signature=sig, sample=dict(config=str(desc), used_dims=used_dims), key=str(case), max_paths=2000, witness=True)
+    return run_case(fn, replay, signature=sig, sample=dict(config=str(desc), used_dims=used_dims, kernel=str(body)), key=str(case), max_paths=2000, witness=True)
 
 
 # ------------------------------------------------------------------ hwpe_mult (linalg path)
@@ -561,10 +587,24 @@ def run(chk):
         desc = [("r", "n" * rnd.randint(1, 5), 1, rnd.choice([["c"], [], ["c", "maxpool_ext"], ["c", "add_ext"]])),
                 ("w", "n" * rnd.randint(1, 5), 1, rnd.choice([["c", "bm"], ["c"], ["bm"], ["c", "t"], ["c", "memset_ext"]]))]
         xcases.append((desc, (rnd.randint(1, len(desc[0][1])), rnd.randint(1, len(desc[1][1])))))
+    # regions whose kernel one of the streamer's extensions implements (rescale up / down, add), extensions listed
+    # before, between and after mask options; near-miss kernels (same operands, other result type) activate nothing
+    xbodies = [("mul",), ("add",), ("add64",), ("rescale_down", 7, -3, 1234567, 9), ("rescale_up", -11, 5, 99, 3),
+               ("rescale_same", 1, 2, 3, 4), ("rescale_down", -128, 127, 2 ** 30, 40)]
+    xopts_r = [["c", "add_ext", "rescale_down_ext", "rescale_up_ext"], ["rescale_up_ext", "c", "rescale_down_ext"],
+               ["c", "bm", "rescale_down_ext", "add_ext"], ["add_ext_long", "rescale_up_ext", "c", "add_ext"], ["c", "rescale_down_ext"],
+               ["maxpool_ext", "c", "bm", "rescale_up_ext", "rescale_down_ext"]]
+    xopts_w = [["c", "bm", "t"], ["c", "rescale_down_ext", "bm"], ["bm", "c", "memset_ext", "rescale_up_ext"], ["c"], ["t", "c", "add_ext"]]
+    for k in range(24 if quick else 200):
+        desc = [("r", "n" * rnd.randint(1, 4), 1, xopts_r[k % len(xopts_r)]), ("w", "n" * rnd.randint(1, 4), 1, rnd.choice(xopts_w))]
+        act = {"add_ext": "add", "rescale_down_ext": "rescale_down", "rescale_up_ext": "rescale_up"}
+        hit = [b for b in xbodies if b[0] in {act.get(o) for o in desc[0][3] + desc[1][3]}]
+        body = rnd.choice(hit) if hit and rnd.random() < 0.7 else rnd.choice(xbodies)
+        xcases.append((desc, (rnd.randint(1, len(desc[0][1])), rnd.randint(1, len(desc[1][1]))), body))
     if only in (None, "xdma"):
         chk.add_results("snax_xdma", pmap(case_xdma, xcases, chunks=2))
     if only in (None, "hwpe"):
         chk.add_results("snax_hwpe_mult", pmap(case_hwpe, [0]))
     chk.bounds = dict(alu_configs=len(cases), gemmx_shapes=len(gcases), xdma_cases=len(xcases))
     chk.outside = ["snax_phs switch values (covered functionally by C20)", "gemmx with symbolic stride patterns (symbolic division)",
-                   "xdma extension CSR values for active extensions"]
+                   "xdma extensions whose kernel is not selected yet in the source (maxpool, memset, transpose: never active)"]
